@@ -338,6 +338,7 @@ class LoopCanon(ast.NodeTransformer):
     def visit_For(self, node):
         self.generic_visit(node)
         node = self._index_loop(node)
+        node = self._enumerate_to_zip(node)
         node = self._drop_unused_enumerate(node)
         node = self._alias_first(node)
         return node
@@ -430,6 +431,44 @@ class LoopCanon(ast.NodeTransformer):
         ast.fix_missing_locations(new)
         return new
 
+    def _enumerate_to_zip(self, node):
+        """for k, e in enumerate(xs): ... ys[k] ...   ->   for e, f in zip(xs, ys): ... f ...     (k used only to index ys)"""
+        it = node.iter
+        if not (isinstance(it, ast.Call) and isinstance(it.func, ast.Name) and it.func.id == 'enumerate' and len(it.args) == 1 and not it.keywords and _is_simple_seq(it.args[0])
+                and isinstance(node.target, ast.Tuple) and len(node.target.elts) == 2 and isinstance(node.target.elts[0], ast.Name) and not node.orelse):
+            return node
+        k = node.target.elts[0].id
+        parents = {}
+        for st in node.body:
+            for p_ in ast.walk(st):
+                for ch in ast.iter_child_nodes(p_):
+                    parents[id(ch)] = p_
+        subs = {}
+        for st in node.body:
+            for n in ast.walk(st):
+                if isinstance(n, ast.Name) and n.id == k:
+                    par = parents.get(id(n))
+                    if isinstance(n.ctx, ast.Load) and isinstance(par, ast.Subscript) and par.slice is n and isinstance(par.ctx, ast.Load) and _is_simple_seq(par.value):
+                        subs.setdefault(ast.unparse(par.value), []).append(par)
+                    else:
+                        return node
+        if not subs or any(_mutated_in(node.body, t) for t in subs) or _mutated_in(node.body, ast.unparse(it.args[0])):
+            return node
+        seqs = sorted(subs)
+        names = {t: self.fresh(t.split('.')[-1]) for t in seqs}
+        repl = {id(sn): names[t] for t, nodes in subs.items() for sn in nodes}
+
+        class R(ast.NodeTransformer):
+            def visit_Subscript(self, n):
+                if id(n) in repl:
+                    return ast.copy_location(ast.Name(id=repl[id(n)], ctx=ast.Load()), n)
+                return self.generic_visit(n)
+        node.body = [R().visit(st) for st in node.body]
+        node.target = ast.copy_location(ast.Tuple(elts=[node.target.elts[1]] + [ast.Name(id=names[t], ctx=ast.Store()) for t in seqs], ctx=ast.Store()), node.target)
+        node.iter = ast.copy_location(ast.Call(func=ast.Name(id='zip', ctx=ast.Load()), args=[it.args[0]] + [ast.parse(t, mode='eval').body for t in seqs], keywords=[]), it)
+        ast.fix_missing_locations(node)
+        return node
+
     def _drop_unused_enumerate(self, node):
         it = node.iter
         if isinstance(it, ast.Call) and isinstance(it.func, ast.Name) and it.func.id == 'enumerate' and len(it.args) == 1 and not it.keywords \
@@ -443,6 +482,21 @@ class LoopCanon(ast.NodeTransformer):
 
     def _alias_first(self, node):
         """for e in xs: x = e ; ...   ->   for x in xs: ...      (e generated by this pass and not used otherwise)"""
+        if isinstance(node.target, ast.Tuple):
+            # for (e, f) in zip(xs, ys): x = e ; y = f ; ...   ->   for (x, y) in zip(xs, ys): ...
+            changed = True
+            while changed and node.body:
+                changed = False
+                b0 = node.body[0]
+                if isinstance(b0, ast.Assign) and len(b0.targets) == 1 and isinstance(b0.targets[0], ast.Name) and isinstance(b0.value, ast.Name) and '__el' in b0.value.id:
+                    e, x = b0.value.id, b0.targets[0].id
+                    elts = [t for t in ast.walk(node.target) if isinstance(t, ast.Name) and t.id == e]
+                    rest = node.body[1:]
+                    if len(elts) == 1 and rest and not any(isinstance(n, ast.Name) and n.id == e for st in rest for n in ast.walk(st)):
+                        elts[0].id = x
+                        node.body = rest
+                        changed = True
+            return node
         if isinstance(node.target, ast.Name) and '__el' in node.target.id and node.body and isinstance(node.body[0], ast.Assign) and len(node.body[0].targets) == 1 \
                 and isinstance(node.body[0].targets[0], ast.Name) and isinstance(node.body[0].value, ast.Name) and node.body[0].value.id == node.target.id:
             e = node.target.id
@@ -451,6 +505,47 @@ class LoopCanon(ast.NodeTransformer):
             if rest and not any(isinstance(n, ast.Name) and n.id == e for st in rest for n in ast.walk(st)):
                 node.target = ast.copy_location(ast.Name(id=x, ctx=ast.Store()), node.target)
                 node.body = rest
+        return node
+
+
+class UnrollLiteral(ast.NodeTransformer):
+    """for v in (a, b): BODY   ->   BODY[v := a] ; BODY[v := b]      (a literal tuple / list of at most 4 names or constants; v not re-bound in BODY;
+    no break / continue / else): two parallel statements and their loop form become one spelling"""
+    def _block(self, stmts):
+        import copy
+        out = []
+        for s in stmts:
+            if isinstance(s, ast.For) and isinstance(s.target, ast.Name) and not s.orelse and isinstance(s.iter, (ast.Tuple, ast.List)) and 1 <= len(s.iter.elts) <= 4 \
+                    and all(isinstance(e, (ast.Name, ast.Constant)) for e in s.iter.elts):
+                v = s.target.id
+                bad = False
+                for st in s.body:
+                    for n in ast.walk(st):
+                        if isinstance(n, (ast.Break, ast.Continue, ast.FunctionDef, ast.Lambda)):
+                            bad = True
+                        if isinstance(n, ast.Name) and n.id == v and isinstance(n.ctx, (ast.Store, ast.Del)):
+                            bad = True
+                if not bad:
+                    for e in s.iter.elts:
+                        class Rn(ast.NodeTransformer):
+                            def visit_Name(self, n):
+                                if n.id == v and isinstance(n.ctx, ast.Load):
+                                    return ast.copy_location(copy.deepcopy(e), n)
+                                return n
+                        for st in s.body:
+                            new = Rn().visit(copy.deepcopy(st))
+                            ast.fix_missing_locations(new)
+                            out.append(new)
+                    continue
+            out.append(s)
+        return out
+
+    def generic_visit(self, node):
+        super().generic_visit(node)
+        for fld in ('body', 'orelse', 'finalbody'):
+            val = getattr(node, fld, None)
+            if isinstance(val, list) and val and isinstance(val[0], ast.stmt):
+                setattr(node, fld, self._block(val))
         return node
 
 
@@ -578,6 +673,50 @@ class TupleCanon(ast.NodeTransformer):
                 continue
             names = ['%s__%d' % (name, i) for i in range(top)]
             rest = '%s__rest' % name
+            # `x = r[i]` with x bound once: x itself becomes the unpacking target
+            drop = []
+
+            def direct_name(sub):
+                par = parents.get(id(sub))
+                wrap = None
+                if isinstance(par, ast.Call) and isinstance(par.func, ast.Name) and par.func.id in ('list', 'tuple') and len(par.args) == 1 and par.args[0] is sub:
+                    wrap, par = par, parents.get(id(par))
+                if isinstance(par, ast.Assign) and len(par.targets) == 1 and isinstance(par.targets[0], ast.Name) and (par.value is sub or par.value is wrap) \
+                        and par.targets[0].id not in params and (stores.get(par.targets[0].id, 0) == 1 or follows(par)):
+                    return par.targets[0].id, par
+                return None, None
+            def follows(st):
+                # st is in the run of plain `x = r[i]` statements directly after the call assignment, in the same block
+                blk = None
+                for n in ast.walk(fn):
+                    for fld in ('body', 'orelse', 'finalbody'):
+                        v = getattr(n, fld, None)
+                        if isinstance(v, list) and asg[0] in v:
+                            blk = v
+                if blk is None or st not in blk:
+                    return False
+                i0, i1 = blk.index(asg[0]), blk.index(st)
+                if i1 <= i0:
+                    return False
+                for mid in blk[i0 + 1:i1 + 1]:
+                    if not (isinstance(mid, ast.Assign) and len(mid.targets) == 1 and isinstance(mid.targets[0], ast.Name) and isinstance(mid.value, (ast.Subscript, ast.Call))
+                            and any(isinstance(x, ast.Name) and x.id == name for x in ast.walk(mid.value))):
+                        return False
+                return True
+            per_index = {}
+            for sub, i in idx_uses:
+                per_index.setdefault(i, []).append(sub)
+            for i, subs in per_index.items():
+                if len(subs) == 1:
+                    nm, st = direct_name(subs[0])
+                    if nm:
+                        names[i] = nm
+                        drop.append(st)
+            if len(slice_uses) == 1:
+                nm, st = direct_name(slice_uses[0][0])
+                if nm:
+                    rest = nm
+                    drop.append(st)
             repl = {id(p_): names[i] for p_, i in idx_uses}
             repl.update({id(p_): rest for p_, k in slice_uses})
 
@@ -593,9 +732,23 @@ class TupleCanon(ast.NodeTransformer):
                     if isinstance(n.func, ast.Name) and n.func.id in ('list',) and len(n.args) == 1 and not n.keywords and isinstance(n.args[0], ast.Name) and n.args[0].id == rest:
                         return n.args[0]
                     return n
-            new_target = ast.Tuple(elts=[ast.Name(id=x, ctx=ast.Store()) for x in names] + [ast.Starred(value=ast.Name(id=rest, ctx=ast.Store()), ctx=ast.Store())], ctx=ast.Store())
+            star = [ast.Starred(value=ast.Name(id=rest, ctx=ast.Store()), ctx=ast.Store())] if slice_uses else []
+            new_target = ast.Tuple(elts=[ast.Name(id=x, ctx=ast.Store()) for x in names] + star, ctx=ast.Store())
             asg[0].targets = [ast.copy_location(new_target, asg[0].targets[0])]
             Rp().visit(fn)
+            if drop:
+                dropset = {id(d) for d in drop}
+
+                class Dp(ast.NodeTransformer):
+                    def generic_visit(self, n):
+                        super().generic_visit(n)
+                        for fld in ('body', 'orelse', 'finalbody'):
+                            v = getattr(n, fld, None)
+                            if isinstance(v, list) and v and isinstance(v[0], ast.stmt):
+                                kept = [x for x in v if id(x) not in dropset]
+                                setattr(n, fld, kept or [ast.Pass()])
+                        return n
+                Dp().visit(fn)
             ast.fix_missing_locations(fn)
 
 
@@ -636,6 +789,7 @@ def normalize_module(tree, modname):
     if inl.helpers or inl.methods:
         _drop_dead_helpers(tree, inl)
     IfAssign().visit(tree)         # after inlining: a helper `return a if c else b` is inlined as an expression first
+    UnrollLiteral().visit(tree)
     LoopCanon().visit(tree)
     AppendLoop().visit(tree)
     TupleCanon().visit(tree)
